@@ -61,9 +61,14 @@ def load(name, frames=None):
     return sn, d
 
 
-def generated(rng, d, N, K, kind, frames=1, open_cluster=False):
+def generated(rng, d, N, K, kind, frames=1, open_cluster=False, triclinic=False):
     """liquid / perturbed crystal / open cluster; returns Snapshots"""
-    cell = gc.make_cell(rng, d, "ortho", lmin=8.0, lmax=12.0, origin_kind=str(rng.choice(["zero", "neg", "asym"])))
+    cell = gc.make_cell(rng, d, "tri" if triclinic else "ortho", lmin=8.0, lmax=12.0, origin_kind=str(rng.choice(["zero", "neg", "asym"])))
+    if triclinic:
+        f = gc.make_frac(rng, d, N, "hardcore")
+        types = gc.make_types(rng, len(f), K)
+        return gc.snapshots_from([gc.snapshot_from(cell, (f + (rng.normal(0, 0.02, f.shape) if t else 0.0)) % 1.0, types, timestep=100 * t)
+                                  for t in range(frames)])
     # edges must differ (by >= 8 %) so that an axis mix-up cannot hide behind a cubic box
     Ld = np.diag(cell["H"]).copy()
     Ld = Ld[0] * np.array([1.0, 0.86, 1.13][:d]) * rng.uniform(0.97, 1.03, size=d) if np.ptp(Ld) < 0.08 * Ld.max() else Ld
@@ -570,6 +575,21 @@ def build_tasks(ctx):
     add("gen3:liquid:300:3", "gr", rdelta=0.07)
     add("gen2:liquid:300:3", "sq", qrange=3.0)
     add("gen3:liquid:150:1", "cut", rc_nb=1.9)
+    add("gen3:liquid:300:5", "gr", ["swap", "relabel", "axes"], rdelta=0.07)
+    add("gen2:liquid:300:4", "gr", ["swap", "relabel"], rdelta=0.07)
+    add("gen3:liquid:250:5", "sq", ["swap", "relabel"], qrange=3.0)
+    add("gen2:liquid:250:4", "sq", ["swap"], qrange=3.0)
+    # --- generated triclinic cells (tilts of either sign): translations, whole-cell shifts, relabelling
+    tri = ["translate", "image", "relabel"]
+    add("tri3:liquid:250:2", "gr", tri + ["swap", "dilate"], rdelta=0.06)
+    add("tri2:liquid:250:2", "gr", tri, rdelta=0.06)
+    add("tri3:liquid:200:1", "nn", tri, nn=12)
+    add("tri2:liquid:200:1", "cut", tri, rc_nb=1.5)
+    add("tri3:liquid:200:1", "boo3", tri, nn=12, l=6)
+    add("tri2:liquid:200:1", "boo2", tri, nn=6, l=6)
+    add("tri3:liquid:200:1", "tetra", tri)
+    add("tri3:liquid:150:2", "s2", tri)
+    add("tri2:liquid:90:2", "hessian", tri, model="lennard_jones")
     # --- open clusters: rotations
     add("open3:150", "boo3", ["rotate", "relabel"], nn=12, l=6)
     add("open3:150", "boo3", ["rotate"], nn=10, l=4)
@@ -610,6 +630,9 @@ def build_input(ctx, rng, label, par):
     elif parts[0].startswith("gen"):
         d = int(parts[0][3])
         x = generated(rng, d, int(parts[2]), int(parts[3]), parts[1])
+    elif parts[0].startswith("tri") and parts[0] != "tri2d":
+        d = int(parts[0][3])
+        x = generated(rng, d, int(parts[2]), int(parts[3]), parts[1], triclinic=True)
     else:
         d = int(parts[0][4])
         x = generated(rng, d, int(parts[1]), 1, "liquid", open_cluster=True)
